@@ -120,6 +120,10 @@ static void upipe_stream_switcher_input_free(struct urefcount *urefcount);
 /** @hidden */
 static void upipe_stream_switcher_switch(struct upipe_stream_switcher *super);
 
+/** @hidden */
+static int upipe_stream_switcher_set_flow_def(struct upipe *upipe,
+                                              struct uref *flow_def);
+
 /** @internal @This is the private context for stream switcher sub pipes. */
 struct upipe_stream_switcher_input {
     /** for urefcount helper */
@@ -296,7 +300,10 @@ static int upipe_stream_switcher_input_control(struct upipe *upipe,
     }
     case UPIPE_SET_FLOW_DEF: {
         struct uref *uref = va_arg(args, struct uref *);
-        return upipe_set_flow_def(super, uref);
+        /* do not go through upipe_control(): it takes and drops a reference
+         * on the super pipe, which may already have been released by the
+         * application (it then only lives through its real refcount) */
+        return upipe_stream_switcher_set_flow_def(super, uref);
     }
     default:
         return UBASE_ERR_UNHANDLED;
